@@ -68,10 +68,28 @@ static void check_spaces(const Deq *d, const char *opk)
     }
 }
 
+/* lengths S+2 .. S+5 of the alphabet stand for lengths near the top of the psize range (no data behind them: the call must refuse / clamp before touching it) */
+#define NHUGE 4
+static size_t real_len(int len) { static const size_t HUGE_LEN[NHUGE] = {(size_t)-1, (size_t)-5, ((size_t)1 << 32) + 3, ((size_t)-1 >> 1) + 1}; return len > S + 1 ? HUGE_LEN[len - S - 2] : (size_t)len; }
 static void apply(Deq *d, Op op, int check)
 {
     char s[64];
-    if (op.kind == 0) {
+    if (op.kind == 0 && op.len > S + 1) {
+        unsigned char small[8] = {1, 2, 3, 4, 5, 6, 7, 8}; pssize r = p_shm_buffer_write(H[op.h], small, real_len(op.len), NULL);
+        if (check && r != 0) viol("write-too-long/result", "write of %zu bytes with only %d free returned %ld (must append nothing and return 0)", real_len(op.len), S - d->n, (long)r);
+        n_full_rejects++;
+        if (check) check_spaces(d, "write");
+    } else if (op.kind == 1 && op.len > S + 1) {
+        unsigned char *buf = malloc(S + 8); int want = d->n, i; pint r;
+        memset(buf, 0xEE, S + 8);
+        r = p_shm_buffer_read(H[op.h], buf, real_len(op.len), NULL);
+        if (check && r != want) viol("read/result", "read(len %zu) with %d bytes queued returned %d, expected %d", real_len(op.len), d->n, r, want);
+        else if (check) for (i = 0; i < want; i++) if (buf[i] != d->b[i]) { viol("read/data", "read returned byte %d = %u, FIFO order requires %u", i, buf[i], d->b[i]); break; }
+        if (check) for (i = want; i < S + 8; i++) if (buf[i] != 0xEE) { viol("read/overwrite", "read wrote beyond the %d bytes it returned", want); break; }
+        d->n = 0;
+        free(buf);
+        if (check) check_spaces(d, "read");
+    } else if (op.kind == 0) {
         unsigned char *buf = malloc(op.len ? op.len : 1); int i; pssize r; size_t rp, wp;
         for (i = 0; i < op.len; i++) { buf[i] = d->next; d->next = d->next == 250 ? 1 : d->next + 1; }
         get_pos(&rp, &wp);
@@ -168,7 +186,7 @@ int main(int argc, char **argv)
     st[0].rp = 0; st[0].wp = 0; st[0].parent = -1; st[0].op = z; st[0].depth = 0; nst = 1;
     for (s = 0; s < nst; s++) {
         Op h[64]; int n = hist_of(s, h), kind, hh, len; Deq d; size_t rp, wp;
-        for (kind = 0; kind < 3; kind++) for (hh = 1; hh <= 2; hh++) for (len = 0; len <= (kind == 2 ? 0 : S + 1); len++) {
+        for (kind = 0; kind < 3; kind++) for (hh = 1; hh <= 2; hh++) for (len = 0; len <= (kind == 2 ? 0 : S + 1 + NHUGE); len++) {
             Op op; int ns;
             op.kind = kind; op.h = hh; op.len = len;
             rebuild(h, n, &d);
